@@ -8,7 +8,7 @@ PROPS["C13"] = dict(
               thorough=dict(cases=3000000, procs=16, args=["--enum", "12"], budget_s=1800)),
            py("vv.exe_c13", quick=dict(cases=800, procs=4, budget_s=600),
               thorough=dict(cases=40000, procs=16, budget_s=1800))],
-    repo_targets=(),
+    repo_targets=("votca_tools", "votca_csg", "csg_density"),
     rule=("histnew (library, HistogramNew): generated (min,max,nbins) incl. nbins=1,2, min>0/<0/=0, ranges 1e-9..2e300, periodic on/off; "
           "streams of 1..40 (value,weight): bin centres, exact bin edges min+(k+-1/2)step, edges +-step*2^-j, in-range lattice points, exact "
           "multiples min-m(max-min) and min+m(max-min), a few / 1e3 / 1e15..1e19 periods away, +-1e18, +-1e25, +-1e300, +-1e308, denormals, +-0, "
